@@ -787,6 +787,12 @@ def h_shared(ctx):
     c12.c(ctx)
 
 
+@R.clause("C13.i", "distinct sequence numbers give distinct nonces: the partial IV is the number's minimal big-endian rendering and the nonce layout is injective in it (shared with C11.c)")
+def i_shared(ctx):
+    from . import c11
+    c11.c(ctx)
+
+
 F_ = "aiocoap/oscore.py"
 R.seed("C13.a", F_, "        if retval >= MAX_SEQNO:", "        if retval > MAX_SEQNO:", ">= -> > in the exhaustion test")
 R.seed("C13.a", F_, "MAX_SEQNO = 2**40 - 1", "MAX_SEQNO = 2**40", "limit one too high")
@@ -846,3 +852,5 @@ R.seed("C13.g", F_, "                self.replay_window_persisted = True\n\n    
 R.seed("C13.g", F_, "                # The replay window will stay uninitialized, which triggers\n                # Echo recovery\n                self.replay_window_persisted = False", "                self.recipient_replay_window.initialize_empty()\n                self.replay_window_persisted = False", "unknown state treated as nothing seen")
 
 R.seed("C13.h", F_, "        self._index = seen\n        self._bitfield = 1\n", "        self._index = max(seen - self._size + 1, 0)\n        self._bitfield = 1 << (seen - self._index)\n", "recovered window anchored below the Echo-verified number: pre-crash requests replayable")
+
+R.seed("C13.i", F_, "partial_iv.lstrip(b\"\\0\")", "partial_iv.strip(b\"\\0\")", "trailing zero bytes stripped too: 256 gets the partial IV of 1")
